@@ -41,7 +41,11 @@ Definition batching_as_modelled : bool :=
 Definition handler_updates_by_difference : bool :=
   has "  tasks_completed = self.worker_comms.get_tasks_completed_progress_bar()" progress_bar_handler_body &&
   has "  progress_bar.update(tasks_completed - progress_bar.n)" progress_bar_handler_body &&
-  has "  if tasks_completed > 0 and tasks_completed == progress_bar.n:" progress_bar_handler_body &&
+  has "  if tasks_completed > 0 and tasks_completed == progress_bar.n and (not total_updated):" progress_bar_handler_body &&
+  has "  total_updated = self.total_updated.is_set()" progress_bar_handler_body &&
+  has "    progress_bar.update_total(self.total)" progress_bar_handler_body &&
+  has "  if progress_bar.n == progress_bar.total:" progress_bar_handler_body &&
+  has "    self.worker_comms.signal_progress_bar_complete()" progress_bar_handler_body &&
   has "  n_tasks_completed = sum(self._tasks_completed_array)" get_tasks_completed_progress_bar_body.
 Definition workers_flush_before_leaving : bool :=
   has "self._update_progress_bar(force_update=True)" handle_poison_pill_body &&
@@ -92,8 +96,13 @@ Definition tcpb (force due : bool) (loc arrw : nat) : nat * nat :=
     if force || due then (0, arrw + loc1) else (loc1, arrw)
   else (loc, arrw).
 
-Record pst := mkP { arr : list nat; loc : list nat; shown : nat; total : nat; pexec : nat }.
-Inductive plabel := PTask (w : nat) (due : bool) | PForce (w : nat) | PHandler.
+(* `total` is the true number of work items; `tshown` the total the bar displays (None while the input's length is
+   unknown); `upd` = main has announced the total and the handler has not looked yet (total_updated);
+   `complete` = the handler has signalled that the bar is complete (what main and the workers wait for) *)
+Record pst := mkP { arr : list nat; loc : list nat; shown : nat; total : nat; tshown : option nat; upd : bool;
+                    complete : bool; pexec : nat }.
+Inductive plabel := PTask (w : nat) (due : bool) | PForce (w : nat) | PSetTotal | PHandler.
+Definition opt_eqb (o : option nat) (n : nat) : bool := match o with Some t => t =? n | None => false end.
 Definition pstep (s : pst) (a : plabel) : option pst :=
   match a with
   | PTask w due =>
@@ -101,23 +110,35 @@ Definition pstep (s : pst) (a : plabel) : option pst :=
       if pexec s <? total s then
         match nth_error (loc s) w, nth_error (arr s) w with
         | Some l, Some x => let '(l', x') := tcpb false due l x in
-                            Some (mkP (Apply.upd (arr s) w x') (Apply.upd (loc s) w l') (shown s) (total s) (S (pexec s)))
+                            Some (mkP (Apply.upd (arr s) w x') (Apply.upd (loc s) w l') (shown s) (total s) (tshown s) (upd s)
+                                      (complete s) (S (pexec s)))
         | _, _ => None
         end
       else None
   | PForce w =>
       match nth_error (loc s) w, nth_error (arr s) w with
       | Some l, Some x => let '(l', x') := tcpb true false l x in
-                          Some (mkP (Apply.upd (arr s) w x') (Apply.upd (loc s) w l') (shown s) (total s) (pexec s))
+                          Some (mkP (Apply.upd (arr s) w x') (Apply.upd (loc s) w l') (shown s) (total s) (tshown s) (upd s)
+                                    (complete s) (pexec s))
       | _, _ => None
+      end
+  | PSetTotal =>                              (* main: the input is exhausted, n tasks were dispatched: set_new_total(n) *)
+      match tshown s with
+      | None => if upd s then None else Some (mkP (arr s) (loc s) (shown s) (total s) (tshown s) true (complete s) (pexec s))
+      | Some _ => None
       end
   | PHandler =>
       if handler_updates_by_difference then
         let tc := list_sum (arr s) in
-        if (0 <? tc) && (tc =? shown s) then Some s
-        else Some (mkP (arr s) (loc s) (shown s + (tc - shown s)) (total s) (pexec s))
+        let u := upd s in
+        let ts := if u then Some (total s) else tshown s in          (* progress_bar.update_total(self.total) *)
+        if (0 <? tc) && (tc =? shown s) && negb u
+        then Some (mkP (arr s) (loc s) (shown s) (total s) ts false (complete s) (pexec s))
+        else let sh := shown s + (tc - shown s) in
+             Some (mkP (arr s) (loc s) sh (total s) ts false (complete s || opt_eqb ts sh) (pexec s))
       else None
   end.
 Fixpoint prun (s : pst) (l : list plabel) : pst :=
   match l with [] => s | a :: r => match pstep s a with Some s' => prun s' r | None => prun s r end end.
-Definition pinit (n_jobs n : nat) : pst := mkP (repeat 0 n_jobs) (repeat 0 n_jobs) 0 n 0.
+Definition pinit (n_jobs n : nat) (sized : bool) : pst :=
+  mkP (repeat 0 n_jobs) (repeat 0 n_jobs) 0 n (if sized then Some n else None) false false 0.
